@@ -53,7 +53,11 @@ INVALID = ["x", "AV:N", "AV:N/AC:L/Au:N/C:P/I:P", "AV:N/AC:L/Au:N/C:P/I:P/A:P/",
            "CVSS:4.0/AV:N/AC:L/AT:N/PR:N/UI:N/VC:H/VI:H/VA:H/SC:N/SI:S/SA:N",
            "CVSS:4.0/AV:N/AC:L/AT:N/PR:N/UI:N/VC:H/VI:H/VA:H/SC:N/SI:N/SA:N/E:F",
            "CVSS:3.1/AV:N/AC:L/PR:N/UI:N/S:U/C:H/I:H/A:H/E:A", "AV:N/AC:L/Au:N/C:P/I:P/A:P/E:P",
-           "CVSS:4.0/AV:N/AC:L/AT:N/PR:N/UI:N/VC:H/VI:H/VA:H/SC:N/SI:N/SA:N/CVSS:4.0"]
+           "CVSS:4.0/AV:N/AC:L/AT:N/PR:N/UI:N/VC:H/VI:H/VA:H/SC:N/SI:N/SA:N/CVSS:4.0",
+           # scale: absurdly long version numbers, fields and vectors
+           "CVSS:3." + "1" * 5000 + "/AV:N/AC:L/PR:N/UI:N/S:U/C:H/I:H/A:H", "CVSS:4." + "0" * 5000 + "/AV:N",
+           "CVSS:" + "3" * 5000 + ".1/AV:N", "AV:N/AC:L/Au:N/C:P/I:P/A:" + "P" * 20000,
+           "/".join(["AV:N/AC:L/Au:N/C:P/I:P/A:P"] * 300)]
 VERSION_FLAGS = [list(c) for r in range(4) for c in itertools.combinations(["-2", "-3", "-4"], r)]
 OTHER_FLAGS = [list(c) for r in range(4) for c in itertools.combinations(["-j", "-a", "-n"], r)]
 
@@ -112,6 +116,10 @@ def interactive_cases(fam, allm, every_value=False):
     for m in ms:
         yield {m: ["?", T.METRICS[fam][m][-1]]}, "invalid answer at %s" % m
         yield {m: [T.METRICS[fam][m][-1].lower()]}, "lower-case answer at %s" % m
+    if every_value or not allm:
+        # scale: 1,500 refused answers at the first question, an over-long answer line
+        yield {ms[0]: ["?"] * 1500 + [T.METRICS[fam][ms[0]][-1]]}, "1500 invalid answers at %s" % ms[0]
+        yield {ms[1]: ["Q" * 1024 + T.METRICS[fam][ms[1]][-1], T.METRICS[fam][ms[1]][0]]}, "over-long answer at %s" % ms[1]
     if allm and every_value:
         for m in ms:
             for v in T.METRICS[fam][m][1:]:
